@@ -253,7 +253,7 @@ class PolarityCNFizer(CNFizer):
             return [(i, pol), (i, not pol), (t, pol), (e, pol)]
 
         else:
-            assert formula.is_str_op() or \
+            assert formula.is_theory_op() or \
                    formula.is_symbol() or \
                    formula.is_function_application() or \
                    formula.is_bool_constant() or \
@@ -456,7 +456,7 @@ class NNFizer(DagWalker):
             return [i, mgr.Not(i), t, e]
 
         else:
-            assert formula.is_str_op() or \
+            assert formula.is_theory_op() or \
                 formula.is_symbol() or \
                 formula.is_function_application() or \
                 formula.is_bool_constant() or \
